@@ -9,6 +9,7 @@ package hsim
 // with what the same call produces alone (computed afterwards, sequentially).
 
 import (
+	"context"
 	"bytes"
 	"fmt"
 	"reflect"
@@ -327,8 +328,36 @@ func c14Pool(r *Run) {
 		arg  int
 		out  string
 	}
+	// one service and one client codec shared by all tasks: their codecs take decoders and encoders from the pools
+	svc := core.NewService()
+	svc.AddFunction(func(x int, s string) string { return fmt.Sprintf("%s/%d", s, x*2) }, "tag")
+	// (a service context belongs to one request)
+	newSvcCtx := func() context.Context { return core.WithContext(context.Background(), core.NewServiceContext(svc)) }
+	ccl := core.NewClient("mock://c14shared")
 	run := func(p *pop) {
 		switch p.kind {
+		case "service-bad-request":
+			// requests the service codec refuses in different places: each must get its error, and the pooled
+			// decoder it used must come back to the pool exactly once and clean
+			bad := [][]byte{[]byte("GET / HTTP/1.1\r\n\r\n"), []byte(`Cs3"tag"a9999{i1;s1"x"}z`), []byte(`Cs3"tag"a-1{}z`), []byte(`Cs3"tag"a2{i1;`),
+				[]byte(`Cs3"tag"a2{s1"x"s1"y"}z`), []byte(`Cs5"nosuch"a0{}z`), []byte(`Hm1{s1"k"`), []byte(`Cz`), []byte(`Cs3"tag"`)}[p.arg%9]
+			resp, err := svc.Handle(newSvcCtx(), bad)
+			p.out = fmt.Sprintf("%q %v", resp, err)
+		case "service-good-request":
+			resp, err := svc.Handle(newSvcCtx(), []byte(fmt.Sprintf(`Cs3"tag"a2{i%d;s4"t%03d"}z`, 1000+p.arg, p.arg)))
+			p.out = fmt.Sprintf("%q %v", resp, err)
+		case "client-bad-response":
+			bad := [][]byte{[]byte("HTTP/1.1 502 Bad Gateway\r\n"), []byte(`Ra9999{1;}z`), []byte(`Rs5"ab`), []byte(`Es3"bad"z`), {}, []byte(`Rr5;z`)}[p.arg%6]
+			cc := core.NewClientContext()
+			cc.Init(ccl)
+			res, err := ccl.Codec.Decode(bad, cc)
+			p.out = fmt.Sprintf("%#v %v", res, err != nil)
+		case "client-good-response":
+			cc := core.NewClientContext()
+			cc.Init(ccl)
+			cc.ReturnType = []reflect.Type{reflect.TypeOf(""), reflect.TypeOf(0)}
+			res, err := ccl.Codec.Decode([]byte(fmt.Sprintf(`Ra2{s4"r%03d"i%d;}z`, p.arg, 7000+p.arg)), cc)
+			p.out = fmt.Sprintf("%#v %v", res, err)
 		case "marshal-simple":
 			b, err := hio.Marshal([]string{"dup", "dup", fmt.Sprint(p.arg)})
 			p.out = fmt.Sprintf("%q %v", b, err)
@@ -393,7 +422,8 @@ func c14Pool(r *Run) {
 		}
 	}
 	kinds := []string{"marshal-simple", "marshal-ref", "unmarshal-bad", "unmarshal-good", "unmarshal-ref", "unmarshal-longtype", "decoder-reuse",
-		"codec-with-all-options", "probe-defaults", "probe-defaults"}
+		"codec-with-all-options", "probe-defaults", "probe-defaults",
+		"service-bad-request", "service-good-request", "service-good-request", "client-bad-response", "client-good-response"}
 	var all []*pop
 	fin := 0
 	for t := 0; t < ntasks; t++ {
